@@ -11,12 +11,12 @@ HOOK_COMMITS = []
 
 PROPS = {
     "C01": {
-        "units": ["h1_chunked", "h1_codec"],
+        "units": ["h1_chunked", "h1_codec", "h1_framing"],
         "kani": [],
-        "technique": "Verus contracts (requires/ensures/loop invariants) on the extracted real chunked and payload decoders against an RFC 7230 byte automaton; segmentation independence as a lemma over those contracts",
-        "level_text": "deductive proof, for all inputs and all iterations, that every chunked-decoder step is the RFC 7230 automaton's, that PayloadDecoder::decode emits exactly the framed bytes, and that the result is independent of read segmentation (lemma over the contracts)",
-        "level_note": "assumes shim contracts for bytes::BytesMut/Bytes and httparse; dispatcher-level clauses listed under not_decided_clauses",
-        "not_decided": [],
+        "technique": "Verus contracts (requires/ensures/loop invariants) on the extracted real chunked and payload decoders against an RFC 7230 byte automaton; MessageType::set_headers and Request::decode against an RFC 7230 section 3.3.3 framing oracle (a fold over the raw header list); Codec::decode's head/body separation; segmentation independence as a lemma over the decoder contracts",
+        "level_text": "deductive proof, for all inputs and all iterations, that every chunked-decoder step is the RFC 7230 automaton's, that PayloadDecoder::decode emits exactly the framed bytes and that the result is independent of read segmentation (lemma over the contracts); that set_headers accepts a head exactly when the fold of the framing rules over its header list does (repeated or non-numeric/signed Content-Length, repeated or non-chunked Transfer-Encoding => ParseError::Header) and keeps every header in order; that Request::decode delivers a request only with the payload decoder the RFC 7230 section 3.3.3 oracle prescribes and rejects Content-Length together with Transfer-Encoding, Transfer-Encoding in HTTP/1.0 or not ending in chunked, HTTP/1.0 POST without length; normalises Content-Length: 0; consumes nothing unless a request is returned and never waits on a partial head of MAX_BUFFER_SIZE bytes or more; that the codec never hands body bytes to the head parser",
+        "level_note": "assumes shim contracts for bytes::BytesMut/Bytes; the httparse call inside Request::decode (incl. MaybeUninit header array and HeaderIndex::record pointer arithmetic) is replaced by an assumed-contract shim (R12) whose result is: head length within the buffer, index ranges inside the head; header value text functions (to_str, trim, parse::<u64>, eq_ignore_ascii_case) are uninterpreted, with one assumed string fact relating the two spellings of `is chunked`",
+        "not_decided": ["InnerDispatcher::poll_request: a ParseError is answered with exactly one 400/431, READ_DISCONNECT is set and no byte after the point of rejection is decoded (dispatcher; not under contract)", "httparse itself (head syntax, prefix-monotone Partial/Complete)", "the method/target/version/header VALUES the application sees (httparse + http crate)"],
         "assumptions": [],
     },
 }
